@@ -743,6 +743,53 @@ func ruleScoreZero(c *Ctx, rule string, fns []*ssa.Function) {
 				}
 			}
 		}
+		judgeScore := func(v ssa.Value) {
+			// follow the accumulator to the phi of the traceback loop
+			var phi *ssa.Phi
+			for d := 0; d < 6 && phi == nil; d++ {
+				switch x := v.(type) {
+				case *ssa.Phi:
+					phi = x
+				case *ssa.BinOp:
+					v = x.X
+				default:
+					d = 6
+				}
+			}
+			if phi == nil {
+				return
+			}
+			// climb to the loop-head phi
+			seen := map[*ssa.Phi]bool{}
+			var inits []ssa.Value
+			var climb func(p *ssa.Phi)
+			climb = func(p *ssa.Phi) {
+				if seen[p] {
+					return
+				}
+				seen[p] = true
+				l := inLoop(p.Block())
+				for i, e := range p.Edges {
+					fromOutside := l == nil || !l.body[p.Block().Preds[i]]
+					if q, ok := e.(*ssa.Phi); ok && !fromOutside {
+						climb(q)
+						continue
+					}
+					if fromOutside && l != nil && p.Block() == l.head {
+						inits = append(inits, e)
+					} else if q, ok := e.(*ssa.Phi); ok {
+						climb(q)
+					}
+				}
+			}
+			climb(phi)
+			for _, e := range inits {
+				n++
+				if k, ok := constIntVal(e); !ok || k != 0 {
+					bad = e
+				}
+			}
+		}
 		for _, b := range fn.Blocks {
 			for _, ins := range b.Instrs {
 				st, ok := ins.(*ssa.Store)
@@ -759,50 +806,37 @@ func ruleScoreZero(c *Ctx, rule string, fns []*ssa.Function) {
 						continue
 					}
 				}
-				// follow the accumulator to the phi of the traceback loop
-				v := st.Val
-				var phi *ssa.Phi
-				for d := 0; d < 6 && phi == nil; d++ {
-					switch x := v.(type) {
-					case *ssa.Phi:
-						phi = x
-					case *ssa.BinOp:
-						v = x.X
-					default:
-						d = 6
-					}
-				}
-				if phi == nil {
+				judgeScore(st.Val)
+			}
+		}
+		// the pair may be built by a private helper that is handed the score
+		for _, b := range fn.Blocks {
+			for _, ins := range b.Instrs {
+				call, ok := ins.(*ssa.Call)
+				if !ok {
 					continue
 				}
-				// climb to the loop-head phi
-				seen := map[*ssa.Phi]bool{}
-				var inits []ssa.Value
-				var climb func(p *ssa.Phi)
-				climb = func(p *ssa.Phi) {
-					if seen[p] {
-						return
-					}
-					seen[p] = true
-					l := inLoop(p.Block())
-					for i, e := range p.Edges {
-						fromOutside := l == nil || !l.body[p.Block().Preds[i]]
-						if q, ok := e.(*ssa.Phi); ok && !fromOutside {
-							climb(q)
+				g := call.Call.StaticCallee()
+				if g == nil || g.Pkg != fn.Pkg || g.Blocks == nil {
+					continue
+				}
+				for _, gb := range g.Blocks {
+					for _, gi := range gb.Instrs {
+						st, ok := gi.(*ssa.Store)
+						if !ok {
 							continue
 						}
-						if fromOutside && l != nil && p.Block() == l.head {
-							inits = append(inits, e)
-						} else if q, ok := e.(*ssa.Phi); ok {
-							climb(q)
+						fa, ok := st.Addr.(*ssa.FieldAddr)
+						if !ok || fieldName(fa) != "score" || !strings.HasSuffix(typeString(fa.X.Type()), "featPair") {
+							continue
 						}
-					}
-				}
-				climb(phi)
-				for _, e := range inits {
-					n++
-					if k, ok := constIntVal(e); !ok || k != 0 {
-						bad = e
+						if prm, ok := st.Val.(*ssa.Parameter); ok {
+							for k, gp := range g.Params {
+								if gp == prm && k < len(call.Call.Args) {
+									judgeScore(call.Call.Args[k])
+								}
+							}
+						}
 					}
 				}
 			}
